@@ -55,6 +55,40 @@ func runFilterConc(cfg Cfg) {
 			s.Line("add "+hx(ip4(a))+" "+hx(net.CIDRMask(16, 32)), "nil "+filterBrief(f))
 			always = append(always, a)
 		}
+		// prologue, still in list mode: a range announced twice (with another one in between) and withdrawn once
+		// is gone - the set does not count announcements
+		{
+			m16 := net.CIDRMask(16, 32)
+			step := func(add bool, a uint32) {
+				n := &net.IPNet{IP: ip4(a), Mask: m16}
+				if add {
+					f.Add(n)
+					s.Line("add "+hx(ip4(a))+" "+hx(m16), "nil "+filterBrief(f))
+				} else {
+					f.Remove(n)
+					s.Line("rem "+hx(ip4(a))+" "+hx(m16), "nil "+filterBrief(f))
+				}
+			}
+			A, B := uint32(150)<<24|uint32(1+run%200)<<16, uint32(150)<<24|uint32(201)<<16
+			step(true, A)
+			step(true, B)
+			step(true, A)
+			step(false, A)
+			if f.Contains(ip4(A | 7)) {
+				s.Violate("final-disagreement", fmt.Sprintf("Add(%v/16), Add(other), Add(%v/16), Remove(%v/16): Contains(%v) is still true", ip4(A), ip4(A), ip4(A), ip4(A|7)), map[string]any{"run": run, "phase": "prologue (one goroutine)"})
+			}
+			s.Line("has "+hx(ip4(A|7)), fmt.Sprint(f.Contains(ip4(A|7))))
+			step(false, B)
+			s.Evaluations++
+		}
+		halfPresent := run%4 == 1
+		if halfPresent {
+			// a stable range of prefix length 1 (the shortest map): everything from 128.0.0.0 up is present
+			// for the whole run, before and after the representation changes
+			f.Add(&net.IPNet{IP: ip4(128 << 24), Mask: net.CIDRMask(1, 32)})
+			s.Line("add "+hx(ip4(128<<24))+" "+hx(net.CIDRMask(1, 32)), "nil "+filterBrief(f))
+			s.Count("run.stable-slash-1")
+		}
 		var zeroState atomic.Int64 // zeroAbsent / zeroUnknown / zeroPresent
 		var zeroEpoch atomic.Int64
 		var stop atomic.Bool
@@ -78,6 +112,7 @@ func runFilterConc(cfg Cfg) {
 				block := uint32(10+w) << 24
 				own := prefixSet{} // EVERY range this writer currently has in the filter (all lie in its own block, which nobody else touches)
 				var mine []wop
+				var dup *wop // a range this writer will announce once more
 				for i := 0; i < perWriter; i++ {
 					wops.Add(1)
 					if w == 0 && toggle && i%25 == 7 {
@@ -147,6 +182,13 @@ func runFilterConc(cfg Cfg) {
 						delete(own, pfx{o.net & maskN(o.ones), o.ones})
 						logs[w] = append(logs[w], wop{false, o.net, o.ones})
 					} else {
+						if dup != nil && wr.Chance(60) {
+							// the same range announced a second time (harmless: the set does not change)
+							f.Add(&net.IPNet{IP: ip4(dup.net), Mask: net.CIDRMask(dup.ones, 32)})
+							logs[w] = append(logs[w], *dup)
+							own[pfx{dup.net & maskN(dup.ones), dup.ones}] = true // (it may have been removed in between)
+							dup = nil
+						}
 						ones := 9 + wr.Intn(24)
 						if waves && i < perWriter/2 {
 							ones = 24 // first wave: a single prefix length; the others first appear after the switch
@@ -157,6 +199,10 @@ func runFilterConc(cfg Cfg) {
 						own[pfx{a & maskN(ones), ones}] = true
 						mine = append(mine, o)
 						logs[w] = append(logs[w], o)
+						if dup == nil && wr.Chance(25) {
+							d := o
+							dup = &d
+						}
 					}
 					if i%4 == 0 {
 						runtime.Gosched()
@@ -175,6 +221,9 @@ func runFilterConc(cfg Cfg) {
 					switch kind {
 					case 0:
 						a = Pick(rr, always) | uint32(rr.U64())&0xffff
+						if halfPresent && rr.Chance(50) {
+							a = 128<<24 | uint32(rr.U64())&0x7fffffff
+						}
 					case 1:
 						a = uint32(100)<<24 | uint32(rr.U64())&0x00ffffff // block 100/8: never touched
 					default:
@@ -194,7 +243,7 @@ func runFilterConc(cfg Cfg) {
 					switch kind {
 					case 0:
 						if !got {
-							s.Violate("present-range-missed", fmt.Sprintf("Contains(%v) = false although 200.x.0.0/16 is present for the whole call", ip), map[string]any{"ip": ip.String(), "run": run})
+							s.Violate("present-range-missed", fmt.Sprintf("Contains(%v) = false although a range covering it (200.x.0.0/16, or 128.0.0.0/1 in this run) is present for the whole call", ip), map[string]any{"ip": ip.String(), "run": run})
 						}
 					case 1:
 						if got && e1 == e2 && z1 == zeroAbsent && z2 == zeroAbsent {
@@ -240,6 +289,9 @@ func runFilterConc(cfg Cfg) {
 		spec := prefixSet{}
 		for _, a := range always {
 			spec[pfx{a, 16}] = true
+		}
+		if halfPresent {
+			spec[pfx{128 << 24, 1}] = true
 		}
 		nOps := 0
 		for w := 0; w < W; w++ {
